@@ -780,7 +780,7 @@ def impl_diff(old, new):
     """(status, sorted list of (kind, path, param)) from the implementation."""
     import griffe
     from _griffe.exceptions import CyclicAliasError
-    out = []
+    out, unsound = [], []
     try:
         for b in with_alarm(20, lambda: list(griffe.find_breaking_changes(old, new))):
             k = b.kind.name
@@ -790,6 +790,17 @@ def impl_diff(old, new):
             out.append([k, b.obj.path, prm])
             for st in griffe.ExplanationStyle:
                 b.explain(st)
+            # the report must be backed by the values it carries (soundness of the report kind)
+            if k == "CLASS_REMOVED_BASE" and not len(b.new_value) < len(b.old_value):
+                unsound.append([k, b.obj.path, "bases not fewer"])
+            if k == "ATTRIBUTE_CHANGED_VALUE" and b.old_value == (None if b.new_value == "unset" else b.new_value):
+                unsound.append([k, b.obj.path, "same value"])
+            if k == "OBJECT_CHANGED_KIND" and b.old_value == b.new_value:
+                unsound.append([k, b.obj.path, "same kind"])
+            if k == "RETURN_CHANGED_TYPE" and not (b.old_value is not None and b.new_value is None):
+                unsound.append([k, b.obj.path, "return annotation not lost"])
+        if unsound:
+            return "unsound:" + repr(unsound[:3]), sorted(out)
         return "ok", sorted(out)
     except CyclicAliasError:
         return "cyclic", []
@@ -927,7 +938,7 @@ def evaluate(ctx, c, status, ibs, mstatus, mbs, wf, consistent, exitc, ao, an, l
         tally["cyclic_abort"] += 1
         return
     if status != "ok":
-        ctx.property_failure(c.json, f"find_breaking_changes did not complete: {status}")
+        ctx.property_failure(c.json, f"find_breaking_changes did not complete, or a report is not backed by its own values: {status}")
         return
     if any(n[2] == ["alias", ["unres"]] for n in ao.nodes + an.nodes):
         tally["unresolvable_survived"] += 1
@@ -1248,7 +1259,9 @@ def evaluate_nomodel(ctx, c, status, ibs, consistent, ao, an, tally):
 def replay(ctx, data):
     case = data.get("failing_input") or {}
     if "old" not in case:
-        print("replay names no input:", data.get("no_longer_checks"))
+        case = next((t["case"] for t in data.get("broken_ties", []) if isinstance(t.get("case"), dict) and "old" in t["case"]), {})
+    if "old" not in case:
+        print("replay names no input:", sorted(set(data.get("no_longer_checks") or [])))
         return 0
     ctx.scratch.mkdir(parents=True, exist_ok=True)
     d = ctx.scratch / "replay"
